@@ -29,6 +29,11 @@ class Conc(Family):
                         [("get_vring_base", 1), ("set_vring_num", 2), ("get_queue_num", 3)],
                         [("get_features", 1), ("get_vring_base", 2)]):
                 out.append((case("frontend", ops, 0, 3000), "frontend-stress"))
+            # SET_LOG_BASE with a log region (the form that reads a reply) against reply-bearing and acknowledged calls
+            out.append((case("frontend", [("set_log_base", 1), ("get_features", 2), ("get_vring_base", 3)], 0, 3000), "frontend-stress"))
+            out.append((case("frontend", [("set_log_base", 1), ("set_log_base", 2), ("set_vring_num", 3)], 0, 3000), "frontend-stress"))
+            for b in fe_ops:
+                out.append((case("frontend", [("set_log_base", 1), (b, 2)], rng.choice([10, 20])), "frontend-2"))
             out.append((case("proxy", [("shared_object_add", i) for i in range(3)], 0, 3000), "proxy-stress"))
             out.append((case("gpu", [("get_protocol_features", 0)] * 3, 0, 3000), "gpu-stress"))
             # acknowledged, reply-bearing and fire-and-forget GPU operations mixed
